@@ -1,6 +1,8 @@
 (* C10, grammar half for Kotlin: a tokenizer and a recursive-descent recogniser for the declaration subset the
    Kotlin back end emits, written from the Kotlin grammar (kotlinlang.org/docs/reference/grammar.html), not from
-   the printer.  Run, extracted, on every real Kotlin file by checks/c10.py (driver command c10_kt_parse).
+   the printer.  Run, extracted, on every real Kotlin file by checks/c10.py (driver command c10_kt_parse); PROVED to accept
+   every file kt_generate / kt_generate_multi write on the stated domain (Props/C10.v: C10_grammar_kotlin,
+   C10_grammar_kotlin_multi; proofs in Proofs/C10_KTGrammar{Tok,Parse,,File,Multi}.v).
 
    Productions of the Kotlin grammar covered (the names are the grammar's; NL* and the optional semi / semis
    between declarations are the grammar's own - line ends are blanks for this recogniser):
